@@ -317,6 +317,10 @@ class ITPDirector(SectionLineParser):
                 atoms.append([tokens[idx], {}])
                 remove.append(idx)
             elif isinstance(idx, slice):
+                if idx.stop is not None and len(tokens[idx]) != idx.stop - (idx.start or 0):
+                    # A slice with an end stands for a fixed number of atoms.
+                    msg = 'Expected {} atoms, found {}.'
+                    raise IOError(msg.format(idx.stop - (idx.start or 0), len(tokens[idx])))
                 atoms += [[atom, {}] for atom in tokens[idx]]
                 idx_range = range(0, len(tokens))
                 remove += idx_range[idx]
